@@ -257,3 +257,526 @@ Proof.
   - intros E. rewrite E in LL. simpl in LL. lia.
   - intros p Hp. apply RG. apply (del_nth_incl _ _ _ DI). exact Hp.
 Qed.
+
+Lemma rule2_ind pp2 ind2 ip3 df3 ind3 ip4 df4 :
+  rule2 QNum pp2 ind2 ip3 df3 = Ok (ind3, ip4, df4) ->
+  ind2 <> [] -> (forall p, In p ind2 -> (p < length pp2)%nat) ->
+  ind3 <> [] /\ (forall p, In p ind3 -> (p < length pp2)%nat).
+Proof.
+  intros H NE RG. unfold rule2 in H.
+  destruct (list_min QNum df3) as [md|]; cbn [bind] in H; [|discriminate].
+  destruct (nleb QNum (nround2 QNum md) (zero QNum)).
+  - destruct (index_of QNum df3 md) as [kd|]; cbn [bind] in H; [|discriminate].
+    destruct (del_nth ind2 kd) as [i'|]; cbn [bind] in H; [|discriminate].
+    destruct (getmany pp2 i') as [ipn|] eqn:GM; cbn [bind] in H; [|discriminate].
+    destruct (del_nth df3 kd) as [dfn|]; cbn [bind] in H; [|discriminate].
+    inversion H; subst. destruct (getmany_spec _ _ _ GM) as (A & B & _). split; assumption.
+  - inversion H; subst. split; assumption.
+Qed.
+
+(* ================================================================ one iteration returns *)
+Lemma bstep_total pp0 sh k idx s :
+  MInv pp0 sh s -> (2 <= length (b_ind s))%nat ->
+  (forall pp', length pp' = length (b_pp s) -> length (tp_sum QNum (set_pp k idx pp')) = length (b_pp s)) ->
+  exists s', bstep QNum k idx s = Ok s'.
+Proof.
+  intros (I & (LD & AL) & BD) L2 TPS. destruct I as ((ND & NE & RG & V) & LPS). unfold bstep.
+  assert (Lip : length (b_ip s) = length (b_ind s)) by (rewrite V; apply vals_at_length).
+  assert (NEps : b_ps s <> []) by (intros C; rewrite C in LPS; simpl in LPS; lia).
+  destruct (list_max_total _ NEps) as (mx & EMX). rewrite EMX. cbn [bind].
+  destruct (index_of_total _ _ (list_max_In _ _ EMX)) as (maxi & IMX0). rewrite IMX0. cbn [bind].
+  destruct (list_min_total _ NEps) as (mn & EMN). rewrite EMN. cbn [bind].
+  destruct (index_of_total _ _ (proj1 (list_min_spec _ _ EMN))) as (mini & IMN0). rewrite IMN0. cbn [bind].
+  pose proof (index_of_lt _ _ _ _ IMX0) as IMX. pose proof (index_of_lt _ _ _ _ IMN0) as IMN. rewrite LPS in IMX, IMN.
+  destruct (sub_at_total (b_ip s) maxi (INC QNum) ltac:(lia)) as (ip1 & S1). rewrite S1. cbn [bind].
+  destruct (sub_at_spec _ _ _ _ S1) as (_ & Lip1 & _).
+  destruct (add_at_total ip1 mini (INC QNum) ltac:(lia)) as (ip2 & A2). rewrite A2. cbn [bind].
+  destruct (sub_at_total (b_df s) maxi (INC QNum) ltac:(lia)) as (df1 & D1). rewrite D1. cbn [bind].
+  destruct (sub_at_spec _ _ _ _ D1) as (_ & Ldf1 & _).
+  destruct (add_at_total df1 mini (INC QNum) ltac:(lia)) as (df2 & D2). rewrite D2. cbn [bind].
+  rewrite INC_Q in *.
+  destruct (move_spec _ _ _ _ _ S1 A2) as (L2' & _ & _ & Vip).
+  destruct (move_spec _ _ _ _ _ D1 D2) as (LD2 & _ & _ & Vdf).
+  assert (RG0 : forall p, In p (b_ind s) -> (p < length (b_pp s))%nat) by (intros p Hp; apply RG; exact Hp).
+  destruct (setmany_total (b_ind s) ip2 (b_pp s) RG0 ltac:(lia)) as (pp1 & SM). rewrite SM. cbn [bind].
+  assert (Hip : forall j, (j < length (b_ind s))%nat -> 1 # 200 < nth j (b_ip s) 0).
+  { intros j Hj. rewrite V, vals_at_nth by exact Hj. apply RG. apply nth_In. exact Hj. }
+  destruct (move_bounds _ _ _ _ _ Vip IMX IMN Hip) as (Bmax & Both & Bmini & Bsame).
+  destruct (move_bounds _ _ _ _ _ Vdf IMX IMN BD) as (Dmax & Doth & Dmini & _).
+  destruct (setmany_spec _ _ _ _ SM ND ltac:(lia)) as (Lpp1 & VA1 & F1 & _).
+  assert (RG1 : forall p, In p (b_ind s) -> (p < length pp1)%nat).
+  { intros p Hp. rewrite Lpp1. apply RG. exact Hp. }
+  assert (Ldf2' : length df2 = length (b_ind s)) by lia.
+  destruct (rule1_total _ _ _ _ _ _ _ _ ND RG1 VA1 Ldf2' L2 IMN0 IMN IMX Both Bmini Bsame Bmax) as (r1 & R1).
+  rewrite R1. cbn [bind]. destruct r1 as [[[[pp2 ind2] ip3] df3] ex].
+  assert (STEP2 : length pp2 = length pp1 /\ ind2 <> [] /\ (forall p, In p ind2 -> (p < length pp2)%nat) /\
+                  exists r2, rule2 QNum pp2 ind2 ip3 df3 = Ok r2).
+  { destruct (rule1_shape _ _ _ _ _ _ _ _ _ _ _ _ _ ND RG1 VA1 Ldf2' IMN0 IMN IMX Both Bmini Bsame Bmax R1)
+      as [(E1 & E2 & E3 & E4 & _ & Ball)|(NE2 & Hm & DI & (dfa & Lda0 & Wmini & Woth & DD) & Lpp2 & Zmax & Vpmini & Vrest)].
+    - subst pp2 ind2 ip3 df3. split; [reflexivity|]. split; [exact NE|]. split; [exact RG1|].
+      apply rule2_total; [exact Ldf2' | exact NE | exact RG1 | left; exact L2].
+    - pose proof (del_nth_length _ _ _ DI) as LI. pose proof (del_nth_length _ _ _ DD) as LDD.
+      assert (NE2' : ind2 <> []) by (intros C; rewrite C in LI; simpl in LI; lia).
+      assert (RG2 : forall p, In p ind2 -> (p < length pp2)%nat).
+      { intros p Hp. rewrite Lpp2. apply RG1. apply (del_nth_incl _ _ _ DI). exact Hp. }
+      split; [exact Lpp2|]. split; [exact NE2'|]. split; [exact RG2|].
+      apply rule2_total; [lia | exact NE2' | exact RG2 | right].
+      assert (E : length ind2 = length df3) by lia. rewrite E.
+      apply (del_nth_forall 0 (fun x => 1 # 200 < x) _ _ _ DD). intros j Hj Hne.
+      destruct (Nat.eq_dec j mini) as [e|n].
+      + subst j. rewrite Wmini. specialize (Dmini NE2). lra.
+      + rewrite (Woth j n). apply Doth; [lia | exact Hne]. }
+  destruct STEP2 as (Lpp2 & NE2' & RG2 & (r2 & R2)). rewrite R2. cbn [bind]. destruct r2 as [[ind3 ip4] df4].
+  destruct (rule2_ind _ _ _ _ _ _ _ R2 NE2' RG2) as (NE3 & RG3).
+  rewrite (getmany_intro _ ind3).
+  - cbn [bind]. eauto.
+  - exact NE3.
+  - intros p Hp. rewrite (TPS pp2) by lia. specialize (RG3 p Hp). lia.
+Qed.
+
+(* ================================================================ the loop returns *)
+Definition tps_ok (k : list (instr (T:=Q))) (idx n : nat) : Prop :=
+  forall pp', length pp' = n -> length (tp_sum QNum (set_pp k idx pp')) = n.
+
+Lemma bloop_total pp0 sh k idx : forall n s,
+  MInv pp0 sh s -> tps_ok k idx (length (b_pp s)) -> exists s', bloop QNum n k idx s = Ok s'.
+Proof.
+  induction n as [|n IH]; intros s I TPS; [simpl; eauto|].
+  pose proof I as (((ND & NE & RG & V) & LPS) & _).
+  assert (Lip : length (b_ip s) = length (b_ind s)) by (rewrite V; apply vals_at_length).
+  cbn [bloop]. destruct (b_ip s) as [|x [|y r]] eqn:EIP.
+  - exfalso. destruct (b_ind s); [congruence | simpl in Lip; lia].
+  - eauto.
+  - assert (L2 : (2 <= length (b_ind s))%nat) by (simpl in Lip; lia).
+    destruct (bstep_total pp0 sh k idx s I L2 TPS) as (s1 & B). rewrite B. cbn [bind].
+    destruct (bstep_minv pp0 sh _ _ _ _ I B) as (I1 & _ & L1 & _).
+    apply IH; [exact I1|]. rewrite L1. exact TPS.
+Qed.
+
+(* ================================================================ one micro-op returns *)
+Lemma balance_uop_total ports k idx pp c ps ind :
+  indices_of ports ps = Ok ind -> NoDup ind -> ps <> [] ->
+  (forall p, In p ind -> (p < length pp)%nat) ->
+  ((2 <= length ps)%nat ->
+     1 # 200 < c / inject_Z (Z.of_nat (length ps)) /\ forall p, In p ind -> 1 # 200 < nth p pp 0) ->
+  tps_ok k idx (length pp) ->
+  exists r, balance_uop QNum ports k idx pp (c, ps) = Ok r.
+Proof.
+  intros IO ND NEps RG MULTI TPS.
+  destruct (indices_of_resolve QNum _ _ _ IO) as (_ & LI).
+  assert (NEI : ind <> []) by (intros C; rewrite C in LI; destruct ps; [congruence | simpl in LI; lia]).
+  unfold balance_uop. rewrite IO. cbn [bind].
+  rewrite (getmany_intro _ ind NEI) by (intros p Hp; rewrite (TPS pp eq_refl); apply RG; exact Hp). cbn [bind].
+  rewrite (getmany_intro pp ind NEI RG). cbn [bind].
+  destruct (all_equal QNum _); [eauto|].
+  set (psums := vals_at (tp_sum QNum (set_pp k idx pp)) ind).
+  destruct (Nat.le_gt_cases 2 (length ps)) as [L2|L1].
+  - destruct (MULTI L2) as (SH & GT).
+    set (sh := c / inject_Z (Z.of_nat (length ps))) in *.
+    match goal with |- context [bloop QNum ?n k idx ?s0] =>
+      destruct (bloop_total pp sh k idx n s0) as (s' & B); [| exact TPS | rewrite B; cbn [bind]; eauto] end.
+    unfold MInv. cbn [b_pp b_ind b_ip b_df b_ps]. split; [|split].
+    + split; [|unfold psums; apply vals_at_length]. split; [exact ND|]. split; [exact NEI|]. split; [|reflexivity].
+      intros p Hp. split; [apply RG; exact Hp | apply GT; exact Hp].
+    + split; [rewrite map_length; lia|]. intros j Hj. rewrite nth_map_const by lia.
+      unfold dcell. cbn [ndiv nofZ QNum]. rewrite Qred_correct. fold sh. ring.
+    + intros j Hj. rewrite nth_map_const by lia. cbn [ndiv nofZ QNum]. rewrite Qred_correct. exact SH.
+  - (* one port: the loop stops at once *)
+    destruct ind as [|p [|q r]]; [congruence | | simpl in LI; lia].
+    match goal with |- context [bloop QNum ?n k idx ?s0] => destruct n; cbn [bloop vals_at map b_ip bind]; eauto end.
+Qed.
+
+(* ================================================================ one micro-op of the instruction: the row invariant
+   (the induction step of BalanceMulti.balance_uops_rinv as a lemma of its own) *)
+Lemma rinv_step ports idx k done c ps rest pp pp1 e1 :
+  (forall u, In u ((c, ps) :: rest) -> wf_names ports u) ->
+  (forall c' ps', In (c', ps') ((c, ps) :: rest) -> (2 <= length ps')%nat ->
+     qn (length done + length ((c, ps) :: rest)) * (1 # 200) < c' / inject_Z (Z.of_nat (length ps'))) ->
+  (forall c' ps', In (c', ps') ((c, ps) :: rest) -> exists ind, indices_of ports ps' = Ok ind) ->
+  length pp = length ports ->
+  (forall p, 0 <= nth p pp 0) ->
+  RInv (length ports) done (map (toU ports) ((c, ps) :: rest)) (qnth pp) ->
+  balance_uop QNum ports k idx pp (c, ps) = Ok (pp1, e1) ->
+  RInv (length ports) (done ++ [toU ports (c, ps)]) (map (toU ports) rest) (qnth pp1) /\ length pp1 = length pp /\
+  (forall p, 0 <= nth p pp1 0).
+Proof.
+  intros WF SHR RES LP NN RI B.
+  destruct (RES c ps (or_introl eq_refl)) as (ind & IO).
+  destruct (indices_of_resolve QNum _ _ _ IO) as (RS & LI).
+  destruct (WF (c, ps) (or_introl eq_refl)) as (Hc & ND & Hne). cbn [fst snd] in Hc, ND, Hne. rewrite RS in ND.
+  set (u := toU ports (c, ps)) in *.
+  assert (UP : up u = ind) by (unfold u, toU; cbn [up snd]; exact RS).
+  assert (UC : uc u = c) by reflexivity.
+  assert (RGI : forall p, In p ind -> (p < length ports)%nat) by (intros p Hp; rewrite <- RS in Hp; eapply resolve_lt; eassumption).
+  assert (NEI : ind <> []) by (intros C; rewrite C in LI; destruct ps; [congruence | simpl in LI; lia]).
+  assert (WFrest : forall x, In x (map (toU ports) rest) -> 0 <= uc x).
+  { intros x Hx. apply in_map_iff in Hx. destruct Hx as (y & E & Hy). subst x.
+    destruct (WF y (or_intror Hy)) as (Hy0 & _). exact Hy0. }
+  destruct RI as (A & RA). cbn [map] in RA. fold u in RA.
+  assert (STEP : forall a,
+    RInvA (length ports) (done ++ [u]) (map (toU ports) rest) (qnth pp1)
+          (fun i p => if Nat.eqb i (length done) then a p else A i p) ->
+    length pp1 = length pp -> (forall p, 0 <= nth p pp1 0) ->
+    RInv (length ports) (done ++ [u]) (map (toU ports) rest) (qnth pp1) /\ length pp1 = length pp /\
+    (forall p, 0 <= nth p pp1 0)).
+  { intros a RA' L1 NN1. split; [eexists; exact RA' | split; assumption]. }
+  destruct ps as [|q1 [|q2 ps']]; [congruence| |].
+  + (* one port: nothing is balanced *)
+    destruct (balance_uop_one_port _ _ _ _ _ _ _ _ _ B) as (E & _). subst pp1.
+    apply (STEP (ushare u)); [|reflexivity | exact NN].
+    apply (rinv_extend _ _ _ _ _ _ _ _ RA).
+    * intros p _. pose proof (ushare_nonneg u p Hc). lra.
+    * intros p _ Hn. unfold ushare. destruct (memb p (up u)) eqn:M; [apply memb_In in M; contradiction | reflexivity].
+    * apply sumn_ushare; rewrite UP; assumption.
+    * intros p _. ring.
+    * intros p _ _. left. pose proof (ushare_nonneg u p Hc). lra.
+  + (* two or more ports *)
+    set (ps := q1 :: q2 :: ps') in *.
+    assert (L2 : (2 <= length ps)%nat) by (unfold ps; simpl; lia).
+    set (sh := c / inject_Z (Z.of_nat (length ps))) in *.
+    pose proof (SHR c ps (or_introl eq_refl) L2) as SH0. fold sh in SH0.
+    cbn [length] in SH0. rewrite qn_add, qn_S in SH0.
+    pose proof (qn_nonneg (length rest)) as QR. pose proof (qn_nonneg (length done)) as QD.
+    assert (USH : forall p, In p ind -> ushare u p == sh).
+    { intros p Hp. unfold ushare. rewrite UP. apply memb_In in Hp. rewrite Hp. rewrite UC, LI. reflexivity. }
+    assert (USH0 : forall p, ~ In p ind -> ushare u p == 0).
+    { intros p Hp. unfold ushare. rewrite UP. destruct (memb p ind) eqn:M; [apply memb_In in M; contradiction | reflexivity]. }
+    destruct RA as (R1 & R2 & R3 & R4 & R5).
+    assert (PS : forall p, In p ind -> - (qn (length done) * (1 # 200)) <= sumn (length done) (fun i => A i p)).
+    { intros p Hp. destruct (R5 p (RGI p Hp)) as [J|J]; [exact J|]. exfalso.
+      assert (E : length (up u) = 1%nat) by (apply J; [left; reflexivity | rewrite UP; exact Hp]).
+      rewrite UP, LI in E. lia. }
+    assert (CELL : forall p, In p ind ->
+              qnth pp p == sumn (length done) (fun i => A i p) + sh + uniform (map (toU ports) rest) p).
+    { intros p Hp. rewrite (R4 p (RGI p Hp)), uniform_cons, (USH p Hp). ring. }
+    assert (GT : forall p, In p ind -> 1 # 200 < nth p pp 0).
+    { intros p Hp. pose proof (CELL p Hp) as C. unfold qnth in C. rewrite C.
+      pose proof (PS p Hp). pose proof (uniform_nonneg (map (toU ports) rest) p WFrest). lra. }
+    assert (SH1 : 1 # 200 < sh) by lra.
+    destruct (balance_uop_multi _ _ _ _ _ _ _ _ _ IO ND SH1 GT B) as (S1 & L1 & O1 & PO). fold sh in PO.
+    set (a := fun p => ushare u p + qnth pp1 p - qnth pp p).
+    apply (STEP a); [|exact L1|].
+    * apply (rinv_extend _ _ _ _ _ _ _ _ (conj R1 (conj R2 (conj R3 (conj R4 R5))))).
+      -- intros p Hp. unfold a, qnth. destruct (in_dec Nat.eq_dec p ind) as [i|ni].
+         ++ rewrite (USH p i). destruct (PO p i) as [(Z1 & Z2)|(Z1 & Z2)]; [rewrite Z1; lra | unfold dcell in Z2; lra].
+         ++ rewrite (USH0 p ni), (O1 p ni). lra.
+      -- intros p Hp Hn. rewrite UP in Hn. unfold a, qnth. rewrite (USH0 p Hn), (O1 p Hn). ring.
+      -- unfold a. rewrite sumn_minus, sumn_plus.
+         rewrite (sumn_ushare (length ports) u) by (rewrite UP; assumption).
+         assert (E : sumn (length ports) (qnth pp1) == sumn (length ports) (qnth pp)).
+         { rewrite <- LP at 2. replace (length ports) with (length pp1) by congruence.
+           rewrite <- !lsum_sumn. exact S1. }
+         rewrite E, UC. ring.
+      -- intros p _. unfold a. ring.
+      -- intros p Hp Hi. rewrite UP in Hi. unfold a, qnth. rewrite (USH p Hi).
+         destruct (PO p Hi) as [(Z1 & Z2)|(Z1 & Z2)]; [|left; unfold dcell in Z2; lra].
+         right. intros u' Hu' Hp'.
+         apply in_map_iff in Hu'. destruct Hu' as ([c' qs] & E & Hy). subst u'.
+         destruct (WF (c', qs) (or_intror Hy)) as (Hc' & ND' & Hne'). cbn [fst snd] in Hc', ND', Hne'.
+         destruct (RES c' qs (or_intror Hy)) as (ind' & IO').
+         destruct (indices_of_resolve QNum _ _ _ IO') as (RS' & LI').
+         unfold toU in *. cbn [up uc fst snd] in *. rewrite RS' in *.
+         destruct (Nat.eq_dec (length ind') 1) as [e1x|n]; [exact e1x|]. exfalso.
+         assert (L2' : (2 <= length qs)%nat).
+         { destruct qs as [|? [|? ?]]; [congruence | simpl in LI'; lia | simpl; lia]. }
+         pose proof (SHR c' qs (or_intror Hy) L2') as SH'.
+         destruct rest as [|r0 rest']; [destruct Hy|].
+         cbn [length] in SH'. rewrite qn_add, !qn_S in SH'.
+         pose proof (qn_nonneg (length rest')) as QR'.
+         assert (GE : c' / inject_Z (Z.of_nat (length qs)) <= uniform (map (fun x => mkU (fst x) (resolve ports (snd x))) (r0 :: rest')) p).
+         { assert (U' : ushare (mkU c' ind') p == c' / inject_Z (Z.of_nat (length qs))).
+           { unfold ushare. cbn [up uc]. apply memb_In in Hp'. rewrite Hp', LI'. reflexivity. }
+           rewrite <- U'. apply uniform_ge_member; [exact WFrest|].
+           apply in_map_iff. exists (c', qs). split; [cbn [fst snd]; rewrite RS'; reflexivity | exact Hy]. }
+         pose proof (CELL p Hi) as C. unfold qnth in C. pose proof (PS p Hi) as H0.
+         set (U := uniform _ p) in C. change (c' / inject_Z (Z.of_nat (length qs)) <= U) in GE.
+         clearbody U. lra.
+    * intros p. destruct (in_dec Nat.eq_dec p ind) as [i|ni]; [|rewrite (O1 p ni); apply NN].
+      destruct (PO p i) as [(Z1 & _)|(Z1 & _)]; lra.
+Qed.
+(* what the row invariant gives BEFORE a multi-port micro-op is balanced: share and cells at its ports are > 1/200 *)
+Lemma rinv_gt ports done c ps rest pp ind :
+  (forall u, In u ((c, ps) :: rest) -> wf_names ports u) ->
+  (forall c' ps', In (c', ps') ((c, ps) :: rest) -> (2 <= length ps')%nat ->
+     qn (length done + length ((c, ps) :: rest)) * (1 # 200) < c' / inject_Z (Z.of_nat (length ps'))) ->
+  length pp = length ports ->
+  RInv (length ports) done (map (toU ports) ((c, ps) :: rest)) (qnth pp) ->
+  indices_of ports ps = Ok ind -> (2 <= length ps)%nat ->
+  1 # 200 < c / inject_Z (Z.of_nat (length ps)) /\ forall p, In p ind -> 1 # 200 < nth p pp 0.
+Proof.
+  intros WF SHR LP RI IO L2.
+  destruct (indices_of_resolve QNum _ _ _ IO) as (RS & LI).
+  destruct (WF (c, ps) (or_introl eq_refl)) as (Hc & ND & Hne). cbn [fst snd] in Hc, ND, Hne. rewrite RS in ND.
+  set (u := toU ports (c, ps)) in *.
+  assert (UP : up u = ind) by (unfold u, toU; cbn [up snd]; exact RS).
+  assert (UC : uc u = c) by reflexivity.
+  assert (RGI : forall p, In p ind -> (p < length ports)%nat) by (intros p Hp; rewrite <- RS in Hp; eapply resolve_lt; eassumption).
+  assert (NEI : ind <> []) by (intros C; rewrite C in LI; destruct ps; [congruence | simpl in LI; lia]).
+  assert (WFrest : forall x, In x (map (toU ports) rest) -> 0 <= uc x).
+  { intros x Hx. apply in_map_iff in Hx. destruct Hx as (y & E & Hy). subst x.
+    destruct (WF y (or_intror Hy)) as (Hy0 & _). exact Hy0. }
+  destruct RI as (A & RA). cbn [map] in RA. fold u in RA.
+  set (sh := c / inject_Z (Z.of_nat (length ps))) in *.
+  pose proof (SHR c ps (or_introl eq_refl) L2) as SH0. fold sh in SH0.
+  cbn [length] in SH0. rewrite qn_add, qn_S in SH0.
+  pose proof (qn_nonneg (length rest)) as QR. pose proof (qn_nonneg (length done)) as QD.
+  assert (USH : forall p, In p ind -> ushare u p == sh).
+  { intros p Hp. unfold ushare. rewrite UP. apply memb_In in Hp. rewrite Hp. rewrite UC, LI. reflexivity. }
+  assert (USH0 : forall p, ~ In p ind -> ushare u p == 0).
+  { intros p Hp. unfold ushare. rewrite UP. destruct (memb p ind) eqn:M; [apply memb_In in M; contradiction | reflexivity]. }
+  destruct RA as (R1 & R2 & R3 & R4 & R5).
+  assert (PS : forall p, In p ind -> - (qn (length done) * (1 # 200)) <= sumn (length done) (fun i => A i p)).
+  { intros p Hp. destruct (R5 p (RGI p Hp)) as [J|J]; [exact J|]. exfalso.
+    assert (E : length (up u) = 1%nat) by (apply J; [left; reflexivity | rewrite UP; exact Hp]).
+    rewrite UP, LI in E. lia. }
+  assert (CELL : forall p, In p ind ->
+            qnth pp p == sumn (length done) (fun i => A i p) + sh + uniform (map (toU ports) rest) p).
+  { intros p Hp. rewrite (R4 p (RGI p Hp)), uniform_cons, (USH p Hp). ring. }
+  assert (GT : forall p, In p ind -> 1 # 200 < nth p pp 0).
+  { intros p Hp. pose proof (CELL p Hp) as C. unfold qnth in C. rewrite C.
+    pose proof (PS p Hp). pose proof (uniform_nonneg (map (toU ports) rest) p WFrest). lra. }
+  assert (SH1 : 1 # 200 < sh) by lra.
+  split; [exact SH1 | exact GT].
+Qed.
+
+(* ================================================================ all micro-ops of one instruction return *)
+Lemma set_nth_set_nth {A} : forall (l : list A) i a b l1, set_nth l i a = Ok l1 -> set_nth l1 i b = set_nth l i b.
+Proof.
+  induction l as [|x l IH]; intros i a b l1 H; [destruct i; discriminate|].
+  destruct i as [|i]; simpl in H.
+  - inversion H; subst. reflexivity.
+  - destruct (set_nth l i a) as [r|] eqn:E; cbn [bind] in H; [|discriminate].
+    inversion H; subst. simpl. rewrite (IH i a b r E). reflexivity.
+Qed.
+
+Lemma set_pp_idem (k : list (instr (T:=Q))) idx a b : set_pp (set_pp k idx a) idx b = set_pp k idx b.
+Proof.
+  unfold set_pp at 2. destruct (nth_error k idx) as [i|] eqn:E.
+  - assert (L : (idx < length k)%nat) by (apply nth_error_Some; congruence).
+    destruct (set_nth_total k idx (mkinstr (i_tp i) a (i_uops i)) L) as (k1 & S1). rewrite S1.
+    unfold set_pp. rewrite E.
+    destruct (set_nth_ok _ _ _ _ dins S1) as (L1 & N1 & _).
+    assert (E1 : nth_error k1 idx = Some (mkinstr (i_tp i) a (i_uops i))).
+    { rewrite (nth_error_nth' k1 dins) by lia. rewrite N1. reflexivity. }
+    rewrite E1. cbn [i_tp i_uops]. rewrite (set_nth_set_nth _ _ _ _ _ S1).
+    destruct (set_nth_total k idx (mkinstr (i_tp i) b (i_uops i)) L) as (k2 & S2). rewrite S2. reflexivity.
+  - reflexivity.
+Qed.
+
+Lemma balance_uops_total ports idx : forall todo k done pp ex,
+  (forall u, In u todo -> wf_names ports u) ->
+  (forall c ps, In (c, ps) todo -> (2 <= length ps)%nat ->
+     qn (length done + length todo) * (1 # 200) < c / inject_Z (Z.of_nat (length ps))) ->
+  (forall c ps, In (c, ps) todo -> exists ind, indices_of ports ps = Ok ind) ->
+  length pp = length ports ->
+  (forall p, 0 <= nth p pp 0) ->
+  RInv (length ports) done (map (toU ports) todo) (qnth pp) ->
+  tps_ok k idx (length ports) ->
+  exists r, balance_uops QNum ports k idx pp todo ex = Ok r.
+Proof.
+  induction todo as [|[c ps] rest IH]; intros k done pp ex WF SHR RES LP NN RI TPS; [simpl; eauto|].
+  cbn [balance_uops].
+  destruct (RES c ps (or_introl eq_refl)) as (ind & IO).
+  destruct (indices_of_resolve QNum _ _ _ IO) as (RS & LI).
+  destruct (WF (c, ps) (or_introl eq_refl)) as (Hc & ND & Hne). cbn [fst snd] in Hc, ND, Hne. rewrite RS in ND.
+  assert (RGI : forall p, In p ind -> (p < length pp)%nat).
+  { intros p Hp. rewrite LP. rewrite <- RS in Hp. eapply resolve_lt; eassumption. }
+  destruct (balance_uop_total ports k idx pp c ps ind IO ND Hne RGI) as ([pp1 e1] & B).
+  - intros L2. apply (rinv_gt ports done c ps rest pp ind WF SHR LP RI IO L2).
+  - rewrite LP. exact TPS.
+  - rewrite B. cbn [bind].
+    destruct (rinv_step ports idx k done c ps rest pp pp1 e1 WF SHR RES LP NN RI B) as (RI1 & L1 & NN1).
+    apply (IH (set_pp k idx pp1) (done ++ [toU ports (c, ps)]) pp1 (ex + e1)%nat).
+    + intros x Hx. apply WF. right. exact Hx.
+    + intros c' ps' I' L2. rewrite app_length. cbn [length].
+      replace (length done + 1 + length rest)%nat with (length done + S (length rest))%nat by lia.
+      pose proof (SHR c' ps' (or_intror I') L2) as Q0. cbn [length] in Q0. exact Q0.
+    + intros c' ps' I'. apply (RES c' ps'). right. exact I'.
+    + congruence.
+    + exact NN1.
+    + exact RI1.
+    + intros pp' Lp. rewrite set_pp_idem. apply TPS. exact Lp.
+Qed.
+
+(* one instruction, from the model's uniform row: the per-instruction loop RETURNS, and (balance_instr_feasible) what it
+   returns is feasible.  tps_ok: the port sums of the kernel with this row replaced cover all ports (true in a kernel
+   whose rows all have the length of the port list and that has a line with a throughput). *)
+Theorem balance_instr_total ports k idx us pp ex :
+  instr_okb ports us = true ->
+  avg_pressure_list QNum ports us = Ok pp ->
+  tps_ok k idx (length ports) ->
+  exists pp' e, balance_uops QNum ports k idx pp us ex = Ok (pp', e) /\
+    Feasible (length ports) (1 # 100) (map (toU ports) us) (qnth pp') /\
+    length pp' = length ports /\ (forall p, 0 <= nth p pp' 0).
+Proof.
+  intros OK AV TPS.
+  assert (SPEC : forall u, In u us -> wf_names ports u /\
+            ((2 <= length (snd u))%nat -> qn (length us) * (1 # 200) < fst u / inject_Z (Z.of_nat (length (snd u))))).
+  { intros u Hu. apply uop_okb_spec. unfold instr_okb in OK. rewrite forallb_forall in OK. apply OK. exact Hu. }
+  assert (WF : forall u, In u us -> wf_names ports u) by (intros u Hu; apply SPEC; exact Hu).
+  destruct (avg_pressure_is_uniform _ _ _ AV WF) as (L & V).
+  assert (NN : forall p, 0 <= nth p pp 0).
+  { intros p. pose proof (V p) as E. unfold qnth in E. rewrite E. apply uniform_nonneg.
+    intros x Hx. apply in_map_iff in Hx. destruct Hx as (y & E' & Hy). subst x. destruct (WF y Hy) as (Hy0 & _). exact Hy0. }
+  assert (RES : forall c ps, In (c, ps) us -> exists ind, indices_of ports ps = Ok ind).
+  { unfold avg_pressure_list in AV. revert AV. generalize (map (fun _ : string => zero QNum) ports). clear.
+    induction us as [|[c0 ps0] us IH]; intros acc AV c ps I; [destruct I|].
+    cbn [avg_go] in AV.
+    destruct (avg_add_ports QNum ports acc _ ps0) as [acc1|] eqn:A; cbn [bind] in AV; [|discriminate].
+    destruct I as [E|I]; [|eapply IH; eassumption].
+    inversion E; subst. clear - A. revert acc A.
+    generalize (ndiv QNum c (nofZ QNum (Z.of_nat (length ps)))) as share.
+    induction ps as [|p ps IHp]; intros share acc A; [simpl; eauto|].
+    cbn [avg_add_ports] in A. cbn [indices_of].
+    destruct (port_index ports p) as [i|]; [|discriminate].
+    destruct (nth_res acc i) as [x|]; cbn [bind] in A; [|discriminate].
+    destruct (set_nth acc i (nadd QNum x share)) as [acc'|]; cbn [bind] in A; [|discriminate].
+    destruct (IHp share acc' A) as (r & E). rewrite E. cbn [bind]. eauto. }
+  destruct (balance_uops_total ports idx us k [] pp ex WF) as ([pp' e] & H).
+  - intros c ps I L2. cbn [length Nat.add]. exact (proj2 (SPEC (c, ps) I) L2).
+  - exact RES.
+  - exact L.
+  - exact NN.
+  - apply rinv_start. intros p _. apply V.
+  - exact TPS.
+  - exists pp', e. split; [exact H|]. apply (balance_instr_feasible ports k idx us pp ex pp' e OK AV H).
+Qed.
+
+(* ================================================================ the whole pass returns *)
+(* the kernel's rows all have the length of the port list, and some line has a throughput *)
+Definition KT (ports : list string) (kk : list (instr (T:=Q))) : Prop :=
+  (forall ins, In ins kk -> length (i_pp ins) = length ports) /\
+  (exists ins, In ins kk /\ counted QNum ins = true).
+
+Lemma tp_sum_length ports kk : KT ports kk -> length (tp_sum QNum kk) = length ports.
+Proof.
+  intros (LEN & (w & Iw & Cw)). unfold tp_sum, columns. rewrite !map_length, seq_length.
+  assert (Iw' : In w (filter (counted QNum) kk)) by (apply filter_In; split; assumption).
+  destruct (filter (counted QNum) kk) as [|a r] eqn:EF; [destruct Iw'|].
+  cbn [map]. apply min_len_const.
+  - apply LEN. apply (proj1 (filter_In (counted QNum) a kk)). rewrite EF. left. reflexivity.
+  - intros x Hx. apply in_map_iff in Hx. destruct Hx as (y & E & Hy). subst x.
+    apply LEN. apply (proj1 (filter_In (counted QNum) y kk)). rewrite EF. right. exact Hy.
+Qed.
+
+Lemma KT_set_pp ports kk idx pp' : KT ports kk -> length pp' = length ports -> KT ports (set_pp kk idx pp').
+Proof.
+  intros (LEN & (w & Iw & Cw)) Lp.
+  destruct (Nat.lt_ge_cases idx (length kk)) as [Li|Li].
+  2:{ unfold set_pp. rewrite (proj2 (nth_error_None kk idx) Li). split; [exact LEN | eauto]. }
+  destruct (set_pp_spec kk idx pp' Li) as (L & N & O). split.
+  - intros ins Hi. apply (In_nth _ _ dins) in Hi. destruct Hi as (j & Hj & E). subst ins.
+    destruct (Nat.eq_dec j idx) as [e|n].
+    + subst j. rewrite N. exact Lp.
+    + rewrite (O j n). apply LEN. apply nth_In. lia.
+  - apply (In_nth _ _ dins) in Iw. destruct Iw as (j & Hj & E). subst w.
+    exists (nth j (set_pp kk idx pp') dins). split; [apply nth_In; lia|].
+    destruct (Nat.eq_dec j idx) as [e|n].
+    + subst j. rewrite N. unfold counted in *. cbn [i_tp]. exact Cw.
+    + rewrite (O j n). exact Cw.
+Qed.
+
+Lemma KT_tps ports kk idx : KT ports kk -> tps_ok kk idx (length ports).
+Proof. intros K pp' Lp. apply tp_sum_length. apply KT_set_pp; assumption. Qed.
+
+Lemma avg_ok_resolves ports : forall us acc v,
+  avg_go QNum ports acc us = Ok v -> forall c ps, In (c, ps) us -> exists ind, indices_of ports ps = Ok ind.
+Proof.
+  induction us as [|[c0 ps0] us IH]; intros acc v AV c ps I; [destruct I|].
+  cbn [avg_go] in AV.
+  destruct (avg_add_ports QNum ports acc _ ps0) as [acc1|] eqn:A; cbn [bind] in AV; [|discriminate].
+  destruct I as [E|I]; [|eapply IH; eassumption].
+  inversion E; subst. clear - A. revert acc A.
+  generalize (ndiv QNum c (nofZ QNum (Z.of_nat (length ps)))) as share.
+  induction ps as [|p ps IHp]; intros share acc A; [simpl; eauto|].
+  cbn [avg_add_ports] in A. cbn [indices_of].
+  destruct (port_index ports p) as [i|]; [|discriminate].
+  destruct (nth_res acc i) as [x|]; cbn [bind] in A; [|discriminate].
+  destruct (set_nth acc i (nadd QNum x share)) as [acc'|]; cbn [bind] in A; [|discriminate].
+  destruct (IHp share acc' A) as (r & E). rewrite E. cbn [bind]. eauto.
+Qed.
+
+Lemma go_total ports
+  (go : list nat -> list (instr (T:=Q)) -> bool -> option (list (instr (T:=Q)) * Q) -> nat ->
+        res (list (instr (T:=Q)) * bool * option (list (instr (T:=Q)) * Q) * nat)) :
+  (forall kk m b e, go [] kk m b e = Ok (kk, m, b, e)) ->
+  (forall idx rest kk m b e us,
+     (idx < length kk)%nat -> i_uops (nth idx kk dins) = UList us ->
+     go (idx :: rest) kk m b e =
+     bind (balance_uops QNum ports kk idx (i_pp (nth idx kk dins)) us e)
+          (fun r => go rest (set_pp kk idx (fst r)) false b (snd r))) ->
+  forall todo kk m b e, NoDup todo -> todo_ok ports todo kk -> KT ports kk -> exists r, go todo kk m b e = Ok r.
+Proof.
+  intros GN GC. induction todo as [|idx rest IH]; intros kk m b e ND T K; [rewrite GN; eauto|].
+  destruct (T idx (or_introl eq_refl)) as (Li & (us & v & EU & OK & AV & LV & EV)).
+  destruct (start_ok_uniform ports _ us v OK AV LV EV) as (WF & LP0 & UN0).
+  rewrite (GC idx rest kk m b e us Li EU).
+  assert (SPEC : forall u, In u us -> wf_names ports u /\
+            ((2 <= length (snd u))%nat -> qn (length us) * (1 # 200) < fst u / inject_Z (Z.of_nat (length (snd u))))).
+  { intros u Hu. apply uop_okb_spec. unfold instr_okb in OK. rewrite forallb_forall in OK. apply OK. exact Hu. }
+  assert (NN : forall p, 0 <= nth p (i_pp (nth idx kk dins)) 0).
+  { intros p. pose proof (UN0 p) as E. unfold qnth in E. rewrite E. apply uniform_nonneg.
+    intros x Hx. apply in_map_iff in Hx. destruct Hx as (y & E' & Hy). subst x. destruct (WF y Hy) as (Hy0 & _). exact Hy0. }
+  destruct (balance_uops_total ports idx us kk [] (i_pp (nth idx kk dins)) e WF) as ([pp' e2] & B).
+  - intros c ps I L2. cbn [length Nat.add]. exact (proj2 (SPEC (c, ps) I) L2).
+  - unfold avg_pressure_list in AV. apply (avg_ok_resolves ports us _ v AV).
+  - exact LP0.
+  - exact NN.
+  - apply rinv_start. intros p _. apply UN0.
+  - apply KT_tps. exact K.
+  - rewrite B. cbn [bind fst snd].
+    destruct (balance_instr_feasible_gen ports kk idx us _ e pp' e2 OK LP0 (fun p _ => UN0 p) B) as (_ & LP & _).
+    apply IH.
+    + inversion ND; assumption.
+    + eapply todo_ok_step; eassumption.
+    + apply KT_set_pp; assumption.
+Qed.
+
+(* The pass never raises on a kernel that meets all_start_ok ... *)
+Theorem balance_pass_total ports (k : list (instr (T:=Q))) :
+  all_start_ok ports k -> exists k' e, balance QNum ports k = Ok (k', e).
+Proof.
+  intros ST. unfold balance.
+  lazy beta iota fix delta [balance_from].
+  destruct (tp_sum QNum k) as [|t0 ts] eqn:TP; [eauto|].
+  lazy zeta.
+  match goal with |- context [?f (seq 0 _) (rev k) false None 0%nat] => set (go := f) end.
+  assert (GN : forall kk m b e, go [] kk m b e = Ok (kk, m, b, e)) by reflexivity.
+  assert (GC : forall idx rest kk m b e us,
+    (idx < length kk)%nat -> i_uops (nth idx kk dins) = UList us ->
+    go (idx :: rest) kk m b e =
+    bind (balance_uops QNum ports kk idx (i_pp (nth idx kk dins)) us e)
+         (fun r => go rest (set_pp kk idx (fst r)) false b (snd r))).
+  { intros idx rest kk m b e1 us Li EU. unfold go at 1. lazy beta iota fix.
+    rewrite (nth_error_nth' kk dins Li). lazy beta iota. rewrite EU. cbn [bind].
+    rewrite (nth_error_nth' kk dins Li).
+    destruct (balance_uops QNum ports kk idx (i_pp (nth idx kk dins)) us e1) as [[pp' e2]|]; reflexivity. }
+  assert (ND : NoDup (seq 0 (length (rev k) - 0))) by apply seq_NoDup.
+  assert (T : todo_ok ports (seq 0 (length (rev k) - 0)) (rev k)).
+  { intros j Hj. apply in_seq in Hj. split; [lia|]. apply ST. apply in_rev. apply nth_In. lia. }
+  assert (K : KT ports (rev k)).
+  { split.
+    - intros ins Hi. apply in_rev in Hi. destruct (ST ins Hi) as (us & v & EU & OK & AV & LV & EV).
+      apply (start_ok_uniform ports ins us v OK AV LV EV).
+    - destruct (filter (counted QNum) k) as [|w r] eqn:EF.
+      + exfalso. unfold tp_sum, columns in TP. rewrite EF in TP. cbn in TP. discriminate.
+      + exists w. assert (Iw : In w (filter (counted QNum) k)) by (rewrite EF; left; reflexivity).
+        apply filter_In in Iw. destruct Iw as (Iw & Cw). split; [apply in_rev in Iw; exact Iw | exact Cw]. }
+  destruct (go_total ports go GN GC _ (rev k) false None 0%nat ND T K) as ([[[kfin multi] best] ex] & G).
+  rewrite G. cbn [bind].
+  destruct (go_inv ports go GN GC _ _ _ _ _ _ _ _ _ ND T G) as (_ & MF & _).
+  rewrite (MF eq_refl). eauto.
+Qed.
+
+(* ... and returns a kernel whose rows are feasible splits (balance_pass_feasible) *)
+Theorem balance_pass_total_feasible ports (k : list (instr (T:=Q))) :
+  all_start_ok ports k ->
+  exists k' e, balance QNum ports k = Ok (k', e) /\
+    length k' = length k /\
+    forall j, (j < length k)%nat ->
+      i_tp (nth j k' dins) = i_tp (nth j k dins) /\ i_uops (nth j k' dins) = i_uops (nth j k dins) /\
+      done_ok ports (nth j k' dins).
+Proof.
+  intros ST. destruct (balance_pass_total ports k ST) as (k' & e & H).
+  exists k', e. split; [exact H|]. exact (balance_pass_feasible ports k k' e ST H).
+Qed.
